@@ -201,30 +201,44 @@ def union (left right : IdSet) : IdSet :=
   else if right.length ≠ 0 && left.length = 0 then right
   else LSet.union left right
 
+/-- what `_apply` asks of the indexes: `Comparator._apply` and `_Range._apply` as oracles.  The
+composition below is written once over the oracle; it is instantiated with the specification-level
+leaves (`specLeaves`, this file) and with the index models of C01/C02 (`HypatiaModel/QueryModel.lean`). -/
+structure Leaves where
+  cmp : Cmp → Nat → Val → Except Err IdSet
+  range : Bool → Nat → Int → Int → Bool → Bool → Except Err IdSet
+
 /-- `_apply` with an explicit evaluation budget for `Not` (which re-enters on the negated
 tree).  `applyQ` below instantiates the budget with `size q`, which always suffices
 (`negate` does not grow a tree); the budget is never exhausted on any input (`applyFuel_enough`
 is exercised by the driver printing `err fuel` otherwise). -/
-def applyFuel (cat : Catalog) : Nat → Q → Except Err IdSet
+def applyFuelL (L : Leaves) : Nat → Q → Except Err IdSet
   | 0, _ => .error .valueError
   | fuel + 1, q =>
     match q with
-    | .cmp c i v => applyCmp cat c i v
-    | .range neg i lo hi el eh => applyRange cat neg i lo hi el eh
-    | .not q => applyFuel cat fuel (negate q)
+    | .cmp c i v => L.cmp c i v
+    | .range neg i lo hi el eh => L.range neg i lo hi el eh
+    | .not q => applyFuelL L fuel (negate q)
     | .and [] => .error .indexError
     | .and (q0 :: rest) => do
-      let r0 ← applyFuel cat fuel q0
+      let r0 ← applyFuelL L fuel q0
       rest.foldlM (fun result q =>
         if result.length = 0 then pure [] else do
-          let right ← applyFuel cat fuel q
+          let right ← applyFuelL L fuel q
           pure (intersect result right)) r0
     | .or [] => .error .indexError
     | .or (q0 :: rest) => do
-      let r0 ← applyFuel cat fuel q0
+      let r0 ← applyFuelL L fuel q0
       rest.foldlM (fun result q => do
-          let right ← applyFuel cat fuel q
+          let right ← applyFuelL L fuel q
           pure (union result right)) r0
+
+def applyQL (L : Leaves) (q : Q) : Except Err IdSet := applyFuelL L (size q + 1) q
+
+/-- leaves answered at specification level -/
+def specLeaves (cat : Catalog) : Leaves := { cmp := applyCmp cat, range := applyRange cat }
+
+def applyFuel (cat : Catalog) : Nat → Q → Except Err IdSet := applyFuelL (specLeaves cat)
 
 def applyQ (cat : Catalog) (q : Q) : Except Err IdSet := applyFuel cat (size q + 1) q
 
@@ -402,5 +416,75 @@ def semList (cat : Catalog) : List Q → Except Err (List IdSet)
     let rs ← semList cat qs
     pure (r :: rs)
 end
+
+/-! ## the hypotheses of the optimiser theorem (C05)
+
+`hazards cat q` follows `_optimize` down the tree and lists which of the three recorded findings a
+rewrite step of this run of the optimiser meets; `OptSafe` = none.  Decidable, evaluated by the driver
+(`optsafe`).  Nothing else is excluded: well-typed trees with `OptSafe` are optimised soundly
+(`c05_optimize_sound_partial`). -/
+
+inductive Hazard where
+  | d2   -- a fold produces `NotAll`, whose `_apply` calls `applyAll`
+  | d3   -- a fold produces a comparator the index class does not implement
+  | d5   -- an Or-pairing produces `NotInRange` on a field index that has value-less documents
+deriving DecidableEq, Repr
+
+/-- every document the index knows has a value -/
+def hasValuesB : IndexT → Bool
+  | .field t => (Field.Spec.known t).all (fun d => (Field.Spec.valueOf t d).isSome)
+  | .keyword t => (kwKnown t).all (fun d => ((AMap.get t d).bind id).isSome)
+  | .text t => (kwKnown t).all (fun d => ((AMap.get t d).bind id).isSome)
+
+/-- folding the operands on index `i` into one `c` comparator -/
+def foldHazard (cat : Catalog) (i : Nat) (c : Cmp) : List Hazard :=
+  match cat[i]? with
+  | some ix => if supports ix c then (if c = .notall then [.d2] else []) else [.d3]
+  | none => [.d3]
+
+def isLowerOn (idx : Nat) (q : Q) : Bool :=
+  match lowerOf q with
+  | some (j, _, _) => j == idx
+  | none => false
+
+/-- the Or loop pairs on index `idx` exactly when the (optimised) operands contain both an `Lt/Le` and a
+`Gt/Ge` on `idx` -/
+def orPairHazard (cat : Catalog) (qs : List Q) : List Hazard :=
+  if qs.all (fun q =>
+      match upperOf q with
+      | some (idx, _, _) =>
+        !(qs.any (isLowerOn idx)) ||
+          (match cat[idx]? with
+           | some ix => hasValuesB ix
+           | none => true)
+      | none => true)
+  then [] else [.d5]
+
+def hazFuel (cat : Catalog) : Nat → Q → List Hazard
+  | 0, _ => []
+  | fuel + 1, q =>
+    match q with
+    | .cmp _ _ _ => []
+    | .range _ _ _ _ _ _ => []
+    | .not q => hazFuel cat fuel (negate q)
+    | .and qs =>
+      match foldSame .eq qs with
+      | some (i, _) => foldHazard cat i .all
+      | none =>
+        match foldSame .noteq qs with
+        | some (i, _) => foldHazard cat i .notany
+        | none => qs.flatMap (hazFuel cat fuel)
+    | .or qs =>
+      match foldSame .eq qs with
+      | some (i, _) => foldHazard cat i .any
+      | none =>
+        match foldSame .noteq qs with
+        | some (i, _) => foldHazard cat i .notall
+        | none => qs.flatMap (hazFuel cat fuel) ++ orPairHazard cat (qs.map (optFuel fuel))
+
+def hazards (cat : Catalog) (q : Q) : List Hazard := hazFuel cat (size q + 1) q
+
+/-- no rewrite of `optimize q` over `cat` meets D2, D3 or D5 -/
+def OptSafe (cat : Catalog) (q : Q) : Bool := (hazards cat q).isEmpty
 
 end Hyp.Query
